@@ -17,12 +17,21 @@ type stats struct {
 	lifetimeConnections uint64
 }
 
-func (s *stats) incrementConnections() {
+// incrementConnections counts a new connection, unless the server limit is
+// reached already. Check and increment are one atomic step, so that a burst of
+// incoming connections can't exceed the limit.
+func (s *stats) incrementConnections() error {
 	defer s.logServerStats()
 	s.mutex.Lock()
+	defer s.mutex.Unlock()
+
+	if s.currentConnections >= config.Server.MaxConnections {
+		return fmt.Errorf("Exceeded max allowed concurrent connections of %d",
+			config.Server.MaxConnections)
+	}
 	s.currentConnections++
 	s.lifetimeConnections++
-	s.mutex.Unlock()
+	return nil
 }
 
 func (s *stats) decrementConnections() {
@@ -51,17 +60,6 @@ func (s *stats) logServerStats() {
 	data["currentConnections"] = s.currentConnections
 	data["lifetimeConnections"] = s.lifetimeConnections
 	dlog.Server.Mapreduce("STATS", data)
-}
-
-func (s *stats) serverLimitExceeded() error {
-	s.mutex.Lock()
-	defer s.mutex.Unlock()
-
-	if s.currentConnections >= config.Server.MaxConnections {
-		return fmt.Errorf("Exceeded max allowed concurrent connections of %d",
-			config.Server.MaxConnections)
-	}
-	return nil
 }
 
 func (s *stats) start(ctx context.Context) {
